@@ -567,6 +567,82 @@ def check_child_context(ctx: Ctx, t: ic.Table) -> None:
                       f'now reads renderable_* directly: the renderer no longer sees these bindings', cls.mod.path, cls.methods[direct[0]].lineno)
 
 
+def _uid_source(m: pf.Module, fn: Optional[pf.FuncDef], e: ast.AST, depth: int = 0) -> bool:
+    """Is the expression an Env.get_uid() identifier (possibly inside an f-string / through single-assignment locals), or None?"""
+    if isinstance(e, ast.Constant) and e.value is None:
+        return True
+    if isinstance(e, ast.Call) and pf.dotted(e.func) in ('Env.get_uid', 'hl.utils.java.Env.get_uid'):
+        return True
+    if isinstance(e, ast.JoinedStr):
+        holes = [v.value for v in e.values if isinstance(v, ast.FormattedValue)]
+        consts = [v.value for v in e.values if isinstance(v, ast.Constant)]
+        return bool(holes) and all(_uid_source(m, fn, h, depth) for h in holes) and all(isinstance(c, str) and (c == '' or c.replace('_', 'a').isalnum()) for c in consts)
+    if isinstance(e, ast.Name) and fn is not None and depth < 3:
+        defs = pf.assignments(fn).get(e.id, [])
+        vals: List[ast.AST] = []
+        for d in defs:
+            if (isinstance(d, ast.Assign) and len(d.targets) == 1 and isinstance(d.targets[0], ast.Tuple) and isinstance(d.value, ast.Tuple)
+                    and len(d.targets[0].elts) == len(d.value.elts)):
+                # a, b = x, y
+                vals += [v for tgt, v in zip(d.targets[0].elts, d.value.elts) if isinstance(tgt, ast.Name) and tgt.id == e.id]
+            else:
+                vals.append(d)
+        return bool(vals) and all(isinstance(d, ast.expr) and _uid_source(m, fn, d, depth + 1) for d in vals)
+    if isinstance(e, ast.Attribute) and e.attr == 'name' and depth < 3:
+        # Ref(...).name of a reference that was itself created from a uid
+        return _uid_source(m, fn, e.value, depth + 1)
+    if isinstance(e, ast.Call) and pf.dotted(e.func) in ('ir.Ref', 'Ref') and e.args:
+        return _uid_source(m, fn, e.args[0], depth + 1)
+    return False
+
+
+def check_raw_sites(ctx: Ctx, t: ic.Table) -> None:
+    """thorough: every construction site (outside hail/ir) of a class on the RAW_RENDERED list passes uid-derived binder names."""
+    want: Dict[str, List[str]] = {}
+    for (cname, tok) in RAW_RENDERED:
+        want.setdefault(cname, []).append(tok[2:])
+    n_sites = 0
+    for rel in pf.walk_py(['hail/python/hail'], exclude=['hail/python/hail/ir/', 'hail/python/hail/docs', 'hail/python/hail/ggplot']):
+        src = None
+        try:
+            m = pf.load(rel)
+        except AnalysisError:
+            continue
+        for call in ast.walk(m.tree):
+            if not isinstance(call, ast.Call):
+                continue
+            d = pf.dotted(call.func)
+            cname = d.split('.')[-1] if d else None
+            if cname not in want:
+                continue
+            cls = t.get(cname)
+            init = cls.resolve('__init__')[1]  # type: ignore[index]
+            params = [a.arg for a in init.args.args[1:]]
+            # attribute -> constructor parameter (self.attr = param)
+            attr_param = {}
+            for st in pf.walk_shallow(init):
+                if isinstance(st, ast.Assign) and isinstance(st.value, ast.Name) and isinstance(st.targets[0], ast.Attribute):
+                    attr_param[st.targets[0].attr] = st.value.id
+            fn = m.enclosing_func(call)
+            n_sites += 1
+            for attr in want[cname]:
+                prm = attr_param.get(attr)
+                if prm is None or prm not in params:
+                    raise AnalysisError(f'{cls.key("__init__")}: cannot map attribute {attr} to a constructor parameter')
+                idx = params.index(prm)
+                arg = call.args[idx] if idx < len(call.args) and not any(isinstance(a, ast.Starred) for a in call.args[: idx + 1]) else None
+                for kw in call.keywords:
+                    if kw.arg == prm:
+                        arg = kw.value
+                cons = f'{rel}::{m.qualname(fn) if fn else "<module>"}::{cname}({prm}=...)'
+                if arg is None:
+                    raise AnalysisError(f'{cons}: binder name argument not found')
+                ctx.check(_uid_source(m, fn, arg), 'R3', cons, f'{cname} renders `{attr}` without escape_id (frozen exception: uid-only names) but this site passes '
+                          f'`{pf.nsrc(arg)}`, which is not derived from Env.get_uid()', m.path, call.lineno)
+    ctx.unit('raw_render_construction_sites', n_sites)
+    ctx.need(n_sites >= 5, f'only {n_sites} construction sites of raw-rendering classes found (expected the 6 listed in RAW_RENDERED)')
+
+
 def run(ctx: Ctx) -> None:
     ctx.explanation = ('Symbolic evaluation of every binder metadata method of the IR class table over all child positions x flag valuations, '
                        'then sibling comparison (bound_variables / head_str / bindings / context switches / agg_capability / renderer passes).')
@@ -594,3 +670,5 @@ def run(ctx: Ctx) -> None:
     check_wrappers(ctx, t)
     check_renderer(ctx, t)
     check_child_context(ctx, t)
+    if ctx.tier == 'thorough':
+        check_raw_sites(ctx, t)
